@@ -4,7 +4,9 @@
    (`max` or `1.0 / max`) selects the `scale_of_max` parameter of the model; the other statements
    the model copies are matched literally; the call sites' determinant / rank tests are matched.
 2. Coq obligations: Lin/LuGen*.v (general-n Crout invariant and solves), Lin/LuPivot.v (pivot
-   search, scale invariance), Lin/LuDet3.v, Lin/LuProofs.v, Lin/LsProofs.v, Properties_C19.v.
+   search, scale invariance), Lin/LuDet3.v, Lin/LuProofs.v, Lin/LuNonsing*.v (nonsingular input <=>
+   nonzero pivots; outcome of the partial model LuPartial.lu_c), Lin/LsProofs.v, Lin/LsLuProofs.v
+   (sound and complete least-squares oracle), Properties_C19.v.
 3. Correspondence, square systems n = 1..8 (random, row-permuted, row-scaled by 2^-27..2^27,
    graded, rank-deficient, exactly singular; small dyadic entries, exact in binary64):
    LuModel over Q[i] (extracted, ocaml/drv_lu2.ml) against _vnacommon_lu / mldivide / mrdivide /
@@ -14,10 +16,12 @@
    (b) row-scaling-invariant componentwise backward error of the C solution and its distance
        from the exact solution (support: binary64 rounding is not in any theorem);
    (c) exactly singular inputs: determinant exactly 0, or non-finite / astronomically large output;
+   (c') exact eliminations with the first zero pivot at every column position: LuPartial.lu_c vs the
+       C routines (NaN resp. exactly 0 determinant, non-finite solutions, callers report VNAERR_MATH);
    (e) on the real code: permuting rows and scaling rows by powers of two must not change the
        pivot rows chosen nor (bitwise) the solution  -- this is where candidate defect D25 shows.
 4. Tall systems up to 40 x 15 through _vnacommon_qrsolve and _vnacommon_qr + _vnacommon_qrsolve2
-   against the exact normal-equation solution of LsSpec.ls_solve, including very tall systems
+   against the exact normal-equation solution of LsLu.ls_lu (cross-checked with LsSpec.ls_solve), including very tall systems
    (m = 4n .. 20n, n = 1..8) with graded condition numbers 1e2 .. 1e7 and consistent data, judged by
    the forward-error bound of a backward-stable solver, LS_C eps (cond|x| + cond^2|r|/|A|), which a
    solution through the normal equations (cond^2 eps |x|) does not meet; rank-deficient tall systems must come back with rank < columns when a column is
@@ -324,13 +328,14 @@ def run(ctx):
     ctx.trusted_base = [
         "Coq 8.16.1 kernel (coqc); vm_compute for the witnesses / non-vacuity examples; no native_compute",
         "axioms: none (Print Assumptions: Closed under the global context for every theorem of Properties_C19.v)",
-        "hand-written model coq/Lin/LuModel.v (+ LuQI2.v instantiation), tied on every run by exact-rational correspondence with the C routines; row-scale variant read from the C text by translate/lu_scale.py",
-        "least squares: only the normal-equation specification coq/Lin/LsSpec.v is modelled; Householder QR is compared with it numerically (support)",
+        "hand-written models coq/Lin/LuModel.v and coq/Lin/LuPartial.v (what the C code returns at an exactly zero pivot) (+ LuQI2.v instantiation), tied on every run by exact-rational correspondence with the C routines; row-scale variant and call-site tests read from the C text by translate/lu_scale.py",
+        "least squares: specification level only (normal equations, coq/Lin/LsSpec.v; sound and complete oracle coq/Lin/LsLu.v); NO model of the Householder code, which is compared with the oracle numerically (support)",
         "OCaml extraction (ExtrOcamlBasic) + glue.ml.inc, zarith; gcc, ASan/UBSan for the harness",
     ]
     ctx.assumptions = [
         "exact field arithmetic stands for binary64 arithmetic: backward stability in binary64 (rounding analysis) and numerical rank decisions are NOT proved; backward-error measurements are support only",
-        "order hypotheses on the magnitude type M (named Section hypotheses of LuProofs.v), instantiated at Qc",
+        "order hypotheses on the magnitude type M (premises of the theorems; Section hypotheses of LuPivot.v / LuNonsing.v), all discharged at Qc (LuNonsingQI.v); in binary64 they fail for NaN and rounded metrics: the NaN case after a zero pivot is modelled (LuPartial) and tied, the rest is tie only",
+        "'exactly zero pivot' = zero in exact arithmetic; a singular matrix whose elimination is inexact in binary64 leaves rounding noise (flagged by astronomically large output: tested, not proved)",
     ]
     ctx.rule = ("one evaluation = one (routine, input) pair run on model and C; distinct non-trivial = "
                 "nonsingular inputs with Skeel condition <= 1e6 whose C result met the backward-error bound, "
@@ -1045,8 +1050,16 @@ def zero_pivot_check(ctx, exe, run_both, violation, quick, variant):
                 else:
                     bad.append((q, "%s: model says non-finite solution, C returns finite numbers among %r" % (name, xs[:3])))
             else:
-                if not all(finite(v) for v in xs) or [(Fraction(a), Fraction(b)) for (a, b) in xs] != mres["x"]:
-                    bad.append((q, "%s: exact elimination, C solution %r differs from the model's %s" % (name, xs[:3], mres["x"][:3])))
+                # the factorisation is exact by construction; the substitution loops may round (their
+                # intermediate values are not bounded by the generator): exact equality is counted, 1e-9
+                # relative is required
+                xm = mres["x"]
+                xmax = max(cabsf(v) for v in xm) or 1.0
+                if all(finite(v) for v in xs) and [(Fraction(a), Fraction(b)) for (a, b) in xs] == xm:
+                    stats["control_solutions_bitwise_exact"] = stats.get("control_solutions_bitwise_exact", 0) + 1
+                elif not all(finite(v) for v in xs) or \
+                        max(cabsf((Fraction(a) - u, Fraction(b) - w)) for (a, b), (u, w) in zip(xs, xm)) > 1e-9 * xmax:
+                    bad.append((q, "%s: exact elimination, C solution %r differs from the model's %s" % (name, xs[:3], xm[:3])))
         # ---- public paths
         if singular:
             if all(finite(v) for v in c_zy["x"]):
